@@ -37,12 +37,18 @@ func c10FS() fstest.MapFS {
 		"layouts/base.vuego": f("---\nsite: S\n---\n<html><body data-site=\"{{ site }}\"><main v-html=\"content\"></main><slot name=\"side\">no side</slot></body></html>"),
 		"layouts/post.vuego": f("---\nlayout: base\nkind: post\n---\n<article :data-kind=\"kind\" v-html=\"content\"></article>"),
 		"layout.vuego":       f("---\nlayout: post\ntitle: FM-title\n---\n<h1>{{ title }}</h1><p>{{ who }}</p><template #side><em>{{ title }}</em></template>"),
+		"layout2.vuego":      f("---\nlayout: post\ntitle: FM2\n---\n<h1>{{ title }}</h1><template v-slot:side><em>long {{ title }} {{ who }}</em></template><template v-slot:nosuch>x</template>"),
+		"jsonprops.vuego":    f(`<template include="comp/tags.vuego" tags='["a","b"]' cfg='{"k":"v","n":[1,2]}' plain="{oops" :bound="jsonish" interp="{{ jsonish }}"></template>`),
+		"comp/tags.vuego":    f(`<i v-for="t in tags">{{ t }}</i><b>{{ cfg.k }}{{ cfg.n[1] }}</b><u>{{ plain }}|{{ bound }}|{{ interp }}</u><s v-for="x in bound">no</s>`),
 		"filters.vuego":      f(`<p>{{ who | upper }}|{{ a | default("d") }}|{{ xs | len }}|{{ m | json }}|{{ who | title | lower }}</p><p v-text="who"></p><p v-html="htmlv"></p>`),
 		"chain.vuego":        f(`<p v-if="z">z</p><p v-else-if="t" v-for="x in xs">{{ x }}</p><p v-else>e</p><template v-for="(i, x) in xs"><span v-if="i">{{ i }}:{{ x }}</span></template><div v-once v-for="x in xs">{{ x }}</div>`),
 		"fm.vuego":           f("---\nwho: front\nadded: yes\n---\n<p>{{ who }} {{ added }} {{ a }}</p>"),
 		"bad-filter.vuego":   f(`<p>{{ who }}</p><p>{{ who | nosuchfilter }}</p>`),
 		"bad-late.vuego":     f(`<p title="t={{ who }} {{ a | nosuch2 }}">x</p><p>token={{ who }} / {{ who | nosuchfilter }}</p>`),
-		"assign.vuego":       f(`<template :hits="z + 1" section="admin"></template><p>{{ hits }} {{ section }} {{ who }}</p><template v-for="x in xs" :last="x"></template><i>{{ last }}</i>`),
+		"assign.vuego":       f(`<template :hits="z + 1" section="admin"></template><p>{{ hits }} {{ section }} {{ who }}</p><template v-for="x in xs" :last="x"></template><i>{{ last }}</i>` +
+			// the long spelling, values the path resolver answers, JSON written literally in an attribute, assignments on chain members and loops
+			`<template v-bind:h2="z + 2" v-bind:w2="who" v-bind:nope="zz.q" list='[1, "two", {"k": 3}]' obj='{"a": {"b": "deep"}}' bad='{oops'></template><p>{{ h2 }}|{{ w2 }}|{{ nope }}|{{ list[1] }}|{{ obj.a.b }}|{{ bad }}</p><i v-for="e in list">{{ e }}</i>` +
+			`<template v-if="t" :c1="who" v-bind:c2="z"></template><template v-else :c1="'no'"></template><p>{{ c1 }}{{ c2 }}</p><template v-for="(i, x) in xs" v-bind:lasti="i" :lastx="x"></template><p>{{ lasti }}{{ lastx }}</p>`),
 		"bad-include.vuego":  f(`<p>{{ who }}</p><template include="comp/none.vuego"></template>`),
 		"bad-required.vuego": f(`<p>a</p><template include="comp/card.vuego"></template>`),
 		"bad-layout.vuego":   f("---\nlayout: nolayout\n---\n<p>x</p>"),
@@ -65,7 +71,7 @@ type c10S struct {
 
 func c10Data() any {
 	return map[string]any{"who": "W", "a": "A", "b": "B", "c": "C", "t": true, "z": 0, "fs": "12px", "pt": "3px",
-		"xs": []any{"x1", "x2", "x3"}, "m": map[string]any{"k1": "v1", "k2": "v2", "k3": "v3", "k4": "v4", "k5": "v5"},
+		"jsonish": `["x","y"]`, "xs": []any{"x1", "x2", "x3"}, "m": map[string]any{"k1": "v1", "k2": "v2", "k3": "v3", "k4": "v4", "k5": "v5"},
 		"m2": map[string]any{"p": map[string]any{"n": "np"}, "q": map[string]any{"n": "nq"}, "r": map[string]any{"n": "nr"}},
 		"ms": map[string]string{"s1": "t1", "s2": "t2", "s3": "t3"}, "htmlv": "<b>raw</b>",
 		// maps whose keys are not strings
@@ -79,10 +85,10 @@ func c10Struct() any {
 
 func c10Catalogue() []c10Prog {
 	var ps []c10Prog
-	files := []string{"attrs.vuego", "maploop.vuego", "include.vuego", "layout.vuego", "filters.vuego", "chain.vuego", "fm.vuego", "assign.vuego", "bad-late.vuego", "bad-filter.vuego", "bad-include.vuego", "bad-required.vuego", "bad-layout.vuego"}
+	files := []string{"attrs.vuego", "maploop.vuego", "include.vuego", "layout.vuego", "layout2.vuego", "jsonprops.vuego", "filters.vuego", "chain.vuego", "fm.vuego", "assign.vuego", "bad-late.vuego", "bad-filter.vuego", "bad-include.vuego", "bad-required.vuego", "bad-layout.vuego"}
 	for _, f := range files {
 		ps = append(ps, c10Prog{name: "load:" + f, entry: "LoadRender", page: f, data: c10Data})
-		if f != "layout.vuego" && f != "bad-layout.vuego" {
+		if f != "layout.vuego" && f != "layout2.vuego" && f != "bad-layout.vuego" {
 			ps = append(ps, c10Prog{name: "vue:" + f, entry: "VueRender", page: f, data: c10Data})
 		}
 	}
